@@ -193,6 +193,14 @@ def check_crash(pid, tier, seed):
     wl = gen_crash_workloads(prof, ti, seed, eng.stats)
     if not wl:
         raise Inconclusive("no workloads generated")
+    if prof.get("chain"):
+        # chain tour: every 2-entry batch shape written behind an acknowledged entry in the same segment (TLC BFS
+        # over all 2-operation sequences, filtered) - the in-flight batch whose torn remains the later appends meet
+        c2 = dict(prof["consts"], MaxOps=2, MinOps=2, WithReopen=False)
+        tour = [h for h in we.gen_workloads(c2, mode="bfs", stats=eng.stats, timeout=120)
+                if len(h) == 2 and h[0]["op"] == "store" and len(h[0]["cids"]) == 1 and h[0]["sz"] == [1]
+                and h[1]["op"] == "store" and len(h[1]["cids"]) == 2]
+        wl = tour + [h for h in wl if h not in tour][: max(2, prof["n"][ti] - len(tour))]
     jobs = we.make_jobs(wl, "crash", prof["geoms"][ti], ["ident"], seed, prefix="w")
     nb = prof["bin_jobs"][ti]
     jobs += we.make_jobs(wl[:nb], "crash", [prof["geoms"][ti][-1] * 4], ["bin"], seed, prefix="b")
